@@ -8,6 +8,7 @@ use std::collections::HashSet;
 mod json;
 mod path_unit;
 mod varname_unit;
+mod total_unit;
 
 pub struct Outcome {
     pub found: bool,
@@ -50,6 +51,8 @@ fn main() {
         ("PATH", "run") => path_unit::run(&input.unwrap()),
         ("VARNAME", "search") => varname_unit::search(),
         ("VARNAME", "run") => varname_unit::run(&input.unwrap()),
+        ("TOTAL", "search") => total_unit::search(),
+        ("TOTAL", "run") => total_unit::run(&input.unwrap()),
         _ => {
             eprintln!("no witness generator for unit {}", unit);
             std::process::exit(2);
